@@ -553,7 +553,7 @@ def correspondence_cases(ctx: vlib.Ctx, n_schemas: int, n_values: int):
 
 
 def correspondence(ctx: vlib.Ctx):
-    cases, descr = correspondence_cases(ctx, ctx.budget(40, 400), ctx.budget(3, 4))
+    cases, descr = correspondence_cases(ctx, ctx.budget(40, 300), ctx.budget(3, 4))
     name = "format-model-vs-impl-and-libraries"
     bad, log = vlib.coq_bad_idx("c04_fmt", "Fmt FmtCases", "", "", cases, "case_ok", "fcase", shard=100,
                                 needs=["theories/Fmt.vo", "theories/FmtCases.vo"])
@@ -787,7 +787,7 @@ def run(ctx: vlib.Ctx):
     correspondence(ctx)
     broken = bool(ctx.unshown)
     names_oracle(ctx)
-    n_s, n_v = ctx.budget(140, 800), ctx.budget(5, 8)
+    n_s, n_v = ctx.budget(140, 700), ctx.budget(5, 8)
     if broken:      # a proof obligation or the correspondence broke: search harder for a failing input
         n_s = ctx.budget(260, 3000)
     law_fail = oracle(ctx, n_s, n_v)
